@@ -845,6 +845,12 @@ UNITS["v_op_types"] = dict(
             ("C01.op.or_sound", "`a || b` admits every non-null value of a (when a can be truthy) and every value of b (when a can be null/false)",
              "self.opcode is Or ==> ((self.lhs.spec_type(*state).m@.contains(NULL) || self.lhs.spec_type(*state).m@.contains(BOOLEAN)) && !(self.lhs.spec_const(*state) == Some(Value::Boolean(true))) ==> self.rhs.spec_type(self.lhs.spec_state(*state)).m@.subset_of(r.result.m@)) && (!(self.lhs.spec_type(*state).m@ == set![NULL]) && !(self.lhs.spec_const(*state) == Some(Value::Boolean(false))) ==> self.lhs.spec_type(*state).m@.remove(NULL).subset_of(r.result.m@))"),
             ("C01.op.and_boolean", "`a && b` is boolean", "self.opcode is And ==> r.result.m@ == set![BOOLEAN]"),
+            ("C02.op.short_circuit_lhs_fallibility", "`a && b` and `a || b` always evaluate a: they are typed fallible whenever a is",
+             "(self.opcode is And || self.opcode is Or) && self.lhs.spec_type(*state).fall@ ==> r.result.fall@"),
+            ("C02.op.and_infallible_only_safe", "`a && b` is typed infallible only if a can only be null or boolean and, unless a is known to be null/false, b can only be null or boolean and cannot fail (otherwise the runtime helper try_and returns a type error)",
+             "(self.opcode is And && !r.result.fall@) ==> self.lhs.spec_type(*state).m@.subset_of(set![NULL, BOOLEAN]) && ((!(self.lhs.spec_type(*state).m@ == set![NULL]) && !(self.lhs.spec_const(*state) == Some(Value::Boolean(false)))) ==> (self.rhs.spec_type(self.lhs.spec_state(*state)).m@.subset_of(set![NULL, BOOLEAN]) && !self.rhs.spec_type(self.lhs.spec_state(*state)).fall@))"),
+            ("C02.op.or_infallible_only_safe", "`a || b` is typed infallible only if b cannot fail whenever b may be evaluated (a may be null or false)",
+             "(self.opcode is Or && !r.result.fall@) ==> (((self.lhs.spec_type(*state).m@.contains(NULL) || self.lhs.spec_type(*state).m@.contains(BOOLEAN)) && !(self.lhs.spec_const(*state) == Some(Value::Boolean(true)))) ==> !self.rhs.spec_type(self.lhs.spec_state(*state)).fall@)"),
         ],
         safety_id="C01.op_type_info.safety", safety_text="`unreachable!(...)` arms are unreachable",
     )],
